@@ -53,7 +53,12 @@ fn math_part<B: StarkField>(name: &str, out: &mut BTreeMap<String, String>, size
         out.insert(format!("{name}/power_series/{n}"), dig(&elems_bytes(&get_power_series(poly[0], n))));
         out.insert(format!("{name}/power_series_offset/{n}"), dig(&elems_bytes(&get_power_series_with_offset(poly[0], poly[1 % n], n))));
         let mut vals = poly.clone();
-        vals[n / 2] = B::ZERO;
+        // zeros (preserved by batch inversion) in the middle, at both ends and on both sides of the first batch boundaries
+        for z in [n / 2, 0, n - 1, 1023, 1024, 2047, 2048] {
+            if z < n && n >= 8 {
+                vals[z] = B::ZERO;
+            }
+        }
         out.insert(format!("{name}/batch_inversion/{n}"), dig(&elems_bytes(&batch_inversion(&vals))));
         let mut a = poly.clone();
         add_in_place(&mut a, &vals);
@@ -165,7 +170,9 @@ pub fn main(args: &[String]) -> i32 {
     let thorough = args.iter().any(|a| a == "--thorough");
     let _ = arg_value(args, "--dummy");
     let mut out: BTreeMap<String, String> = BTreeMap::new();
-    let sizes: Vec<usize> = if thorough { vec![8, 512, 1023, 1024, 1025, 2048, 4096, 8192] } else { vec![512, 1023, 1024, 1025, 2048, 4096] };
+    // lengths on both sides of the 1024-element threshold, and lengths that are not a multiple of the batch size once the
+    // batches are large enough to be handed to the pool (1024 * next_pow2(threads) + 1: the last batch is a short one)
+    let sizes: Vec<usize> = if thorough { vec![8, 512, 1023, 1024, 1025, 2048, 2049, 3000, 4096, 4097, 5000, 8192, 8193, 16385, 65537] } else { vec![512, 1023, 1024, 1025, 2048, 2049, 4096, 4097, 8193] };
     math_part::<f64::BaseElement>("f64", &mut out, &sizes);
     math_part::<f128::BaseElement>("f128", &mut out, if thorough { &sizes } else { &sizes[1..4] });
     let msizes: Vec<usize> = if thorough { vec![2, 512, 1024, 2048, 4096, 8192] } else { vec![512, 1024, 2048, 4096] };
